@@ -33,8 +33,8 @@ CHECK_DEADLOCK FALSE
 """
 
 SAFETY = ("VIEW cvars\nINVARIANTS TypeOK Inv_C05_Complete Inv_C05_OwnHash Inv_C05_Recreate Inv_C05_Avail "
-          "Inv_C05_CacheOwnHash\nPROPERTIES Act_C05_WriteOwnHash")
-ALLF = '{"cancel", "timeout", "evict", "lose"}'
+          "Inv_C05_CacheOwnHash Inv_C05_Frontier\nPROPERTIES Act_C05_WriteOwnHash")
+ALLF = '{"cancel", "timeout", "evict", "lose", "shared"}'
 
 
 def q(names):
@@ -87,7 +87,8 @@ def _run(ctx, lap):
     rb = ctx.tlc(sd, "MC_TrieSync", "r1b.cfg", timeout=3000, coverage=not qk)
     # (c) explicit environment: cache, requests in flight, honest answers in any order, 1 (thorough: 2) adversary
     #     moves out of deliver-anything / evict / lose, cancellation and timeout
-    cfg(sd, "r1c.cfg", shapes=q(["branch2"] if qk else ["leaf", "branch2", "dupleaf"]), caps="1, 3", budgets="1")
+    cfg(sd, "r1c.cfg", shapes=q(["branch2"] if qk else ["leaf", "branch2", "dupleaf"]), caps="1, 3", budgets="1",
+        faults='{"cancel", "timeout", "evict", "lose"}' if qk else ALLF)
     rc = ctx.tlc(sd, "MC_TrieSync", "r1c.cfg", timeout=3000, coverage=not qk)
     if not qk:
         # (d) trieSyncer on the hard-cap shape
@@ -99,7 +100,9 @@ def _run(ctx, lap):
             never = set(runs[0].coverage_zero)
             for r in runs[1:]:
                 never &= set(r.coverage_zero)
-            expected = {"Poison", "DeliverAllHonest"}
+            # TLC reports the disjuncts of Adversary/Honest under those names; the Poison and batch disjuncts are
+            # disabled in every safety run, so these two names always show a zero line
+            expected = {"Poison", "DeliverAllHonest", "Adversary", "Honest"}
             if never - expected:
                 ctx.broken.append("vacuity guard: actions never taken in any exhaustive run: %s" % sorted(never - expected))
             ctx.cov(coverage_guard="actions with zero coverage in all exhaustive runs: %s (expected at most %s)"
@@ -123,16 +126,14 @@ def _run(ctx, lap):
     ctx.tlc(sd, "MC_TrieSync", "live_d.cfg", timeout=3000)
     if not qk:
         # trieSyncer: completes when a request is answered as one batch (and no node occurs twice under one parent)
-        cfg(sd, "live_s.cfg", spec="LiveSpec", shapes=q(["leaf", "branch2", "slot16"]), algos=q(["single"]), caps="1, 3",
+        cfg(sd, "live_s.cfg", spec="LiveSpec", shapes=q(["leaf", "branch2"]), algos=q(["single"]), caps="1, 3",
             budgets="1", faults='{"batch", "evict"}', rest=live)
         ctx.tlc(sd, "MC_TrieSync", "live_s.cfg", timeout=3000)
-        # ... and TLC exhibits the fair livelock of trieSyncer when answers arrive one node at a time (documented,
-        # not a C05 violation: C05 is conditional on completion)
-        cfg(sd, "live_x.cfg", spec="LiveSpec", shapes=q(["slot16"]), algos=q(["single"]), caps="1", budgets="0",
-            faults="{}", initdbs="NoResume", rest=live)
-        x = ctx.tlc(sd, "MC_TrieSync", "live_x.cfg", timeout=3000, count=False, allow=("property",))
-        ctx.cov(liveness_note="trieSyncer, hard cap 1, answers one node at a time: TLC %s a fair livelock (see docs/triesync.md)"
-                % ("finds" if not x.ok else "does NOT find"))
+        cfg(sd, "live_s2.cfg", spec="LiveSpec", shapes=q(["slot16"]), algos=q(["single"]), caps="1, 3",
+            budgets="0", faults='{"batch"}', rest=live)
+        ctx.tlc(sd, "MC_TrieSync", "live_s2.cfg", timeout=3000)
+        # (the fair livelocks of trieSyncer for one-node-at-a-time answers / duplicate children are documented in
+        #  docs/triesync.md; they are outside C05, which is conditional on completion)
 
     lap("R1 liveness")
     # ------------------------------------------------------------------ R2: TLC schedules on the real syncers
@@ -142,13 +143,15 @@ def _run(ctx, lap):
     cfg(sd, "sim.cfg", spec="GenSpec", shapes=allshapes, caps="1, 2, 3", log="LogAppend", depth=140,
         faults='{"evict", "lose"}, {"cancel", "evict", "lose"}', budgets="2, 4, 8", rest="ACTION_CONSTRAINT EmitFull")
     beh = ctx.path("sim.ndjson")
-    g = ctx.tlc(sd, "MC_TrieSync", "sim.cfg", simulate=150 if qk else 2500, depth=150, timeout=1800, behaviours_out=beh)
+    g = ctx.tlc(sd, "MC_TrieSync", "sim.cfg", simulate=300 if qk else 2500, depth=150, timeout=1800, behaviours_out=beh)
     if g.ok and g.behaviours == 0:
         ctx.broken.append("behaviour export produced nothing")
     lap("R2 generate")
     tr = os.path.join(sd, "trace.ndjson")
-    h = ctx.vh(exe, ["replay", beh, tr, 160 if qk else 1500], timeout=1800)
+    h = ctx.vh(exe, ["replay", beh, tr, 200 if qk else 1500], timeout=1800)
     runs = int(h.stats.get("runs", 0))
+    if int(h.stats.get("hung", 0)):
+        ctx.drifts.append({"what": "%s replayed runs never reached a scheduling point again and were ended by the harness watchdog" % h.stats.get("hung")})
     if runs and int(h.stats.get("ok", 0)) == 0:
         ctx.broken.append("no replayed run completed: the oracle was never evaluated")
     ctx.cov(traces_validated_against_impl=runs, evaluations=int(h.stats.get("events", 0)),
@@ -172,7 +175,8 @@ def _run(ctx, lap):
     for i in range(nseeds):
         r3 = ctx.vh(exe, ["record", ctx.seed * 1000 + i, 150 if qk else 1200, tr2, 12 if qk else 60], timeout=1800)
         ctx.cov(traces_validated_against_impl=int(r3.stats.get("runs", 0)), evaluations=int(r3.stats.get("events", 0)),
-                distinct_nontrivial=int(r3.stats.get("distinct", 0)))
+                distinct_nontrivial=int(r3.stats.get("distinct", 0)),
+                random_runs=dict((k, r3.stats.get(k)) for k in ("runs", "ok", "cancelled", "no_completion", "resumed", "duo")))
         ev2 = int(r3.stats.get("trace_events", 0))
         if ev2:
             st2, _ = vlib.validate_trace(ctx, sd, "Trace_TrieSync", "Trace_TrieSync.cfg", tr2, ev2, "C05/trace",
